@@ -14,10 +14,21 @@
 
   The defects of the pinned tree are theorems about `Cfg.pinned` (concrete label sequences,
   evaluated by `decide`); the same sequences were replayed on the real code (corpus/C02).
+
+  Last part: the monitor of Spec/Aio.lean accepts every execution of the repaired model
+  (`judge_sound`, `judge_sound_quiet`; proof in Proofs/AioJudge*.lean: a relation between the
+  model's state and the monitor's state, preserved by one model step followed by the monitor's
+  steps on that step's observations).  The statement as first written is false
+  (`judge_sound_statement_false`); the hypotheses of the corrected one (`NoSleep`, `Contract`)
+  are each shown necessary (`judge_needs_*`), and two clauses of the monitor were corrected
+  (`old_monitor_false_alarm_*`).
 -/
 import NngModel.Proofs.Aio
 import NngModel.Proofs.AioB
 import NngModel.Proofs.AioC
+import NngModel.Proofs.AioJudgeMain
+import NngModel.Proofs.AioJudgeTrace
+import NngModel.Proofs.AioJudgeOld
 namespace Nng.Props.C02
 open Nng.Aio Nng.AioSpec
 
@@ -225,11 +236,199 @@ def sampleRun : List Label :=
 example : (run Cfg.fixed {} sampleRun).map (fun s => (s.starts, s.completions, s.reported, s.result, s.busy, s.stoppedAt))
     = some (1, 1, 1, ETIMEDOUT, 0, some 1) := by decide
 
-/-- NOT PROVED (kept as a statement): the monitor of Spec/Aio.lean accepts the observable trace
-    of every execution of the repaired model.  The theorems above are its ingredients stated on
-    the model's ghost state; the monitor itself is tied to the model only by running both on the
-    same implementation traces. -/
+-- the monitor accepts every execution of the model ---------------------------------------------
+
+/-- the statement as first written, about the model's own `trace`.  It is FALSE
+    (`judge_sound_statement_false`): `trace` never emits `cbEnd`, so for the monitor every callback
+    is still running when `nng_aio_stop` returns. -/
 def judge_sound_statement : Prop :=
   ∀ ls s, NoSleep ls → run Cfg.fixed {} ls = some s → judge (trace Cfg.fixed {} ls) = none
+
+theorem judge_sound_statement_false : ¬ judge_sound_statement := by
+  intro h
+  have hn : NoSleep sampleRun := by
+    intro l hl
+    simp only [sampleRun, List.mem_cons, List.not_mem_nil, or_false] at hl
+    rcases hl with h | h | h | h | h | h | h | h | h | h | h | h | h | h | h | h | h | h | h | h <;> subst h <;> trivial
+  cases hr : run Cfg.fixed {} sampleRun with
+  | none => exact absurd hr (by decide)
+  | some s => exact absurd (h _ s hn hr) (by decide)
+
+/-- THE THEOREM: the monitor of Spec/Aio.lean (all clauses: exactly-once, result stability, no
+    early timeout, cancel codes, stop / free quiescence) accepts the observable trace of every
+    execution of the repaired aio model on the generic provider, the trace being `traceX` =
+    the model's `trace` with the observations `cbEnd` and `abortRet` that the monitor's clauses
+    inspect (`traceX_extends_trace`), provided the environment keeps to `Contract`
+    (Proofs/AioJudgeDefs.lean, `okL`); every clause of the contract, and `NoSleep`, is necessary
+    (`judge_needs_*` below). -/
+theorem judge_sound (ls : List Label) (s : State) (hn : NoSleep ls) (hc : Contract Cfg.fixed {} {} ls)
+    (hr : run Cfg.fixed {} ls = some s) : judge (traceX Cfg.fixed {} {} ls) = none :=
+  judge_accepts ls s hn hc hr
+
+/-- ... including the end-of-execution clause when everything has drained -/
+theorem judge_sound_quiet (ls : List Label) (s : State) (hn : NoSleep ls) (hc : Contract Cfg.fixed {} {} ls)
+    (hr : run Cfg.fixed {} ls = some s) (hb : s.busy = 0) (hsub : s.subPc = 0) (hrets : s.subRets = []) :
+    judge (traceX Cfg.fixed {} {} ls ++ [.quiet]) = none :=
+  judge_accepts_quiet ls s hn hc hr hb hsub hrets
+
+/-- the same however late (or never) the return of an `nng_aio_abort` call is observed: `traceX`
+    puts `abortRet` at the earliest point (the call has done its work); under a return policy `pol`
+    (after each step of the model, how many of the finished calls are seen to return) the trace is
+    `traceP`; the contract `ContractP` adds that `nng_aio_free` is called only when every
+    `nng_aio_abort` call has returned (necessary: `judge_needs_aborts_returned_before_free`) -/
+theorem judge_sound_delayed_returns (pol : RetPolicy) (ls : List Label) (s : State) (hn : NoSleep ls)
+    (hc : ContractP Cfg.fixed pol {} {} ls) (hr : run Cfg.fixed {} ls = some s) :
+    judge (traceP Cfg.fixed pol {} {} ls) = none :=
+  judge_accepts_delayed pol ls s hn hc hr
+
+theorem traceP_extends_trace (pol : RetPolicy) (ls : List Label) :
+    (traceP Cfg.fixed pol {} {} ls).filter (fun o => !isExtra o) = trace Cfg.fixed {} ls :=
+  traceP_filter Cfg.fixed pol ls {} {}
+
+/-- `traceX` only adds `cbEnd` / `abortRet` observations to the model's trace -/
+theorem traceX_extends_trace (ls : List Label) :
+    (traceX Cfg.fixed {} {} ls).filter (fun o => !isExtra o) = trace Cfg.fixed {} ls :=
+  traceX_filter Cfg.fixed ls {} {}
+
+/-- non-vacuity: `sampleRun` (timeout, expiry winning against the provider, callback, stop) keeps
+    to the contract and is accepted through the theorem; so does an execution with an abort in
+    flight over a restart from the callback, a skipped callback and nng_aio_free -/
+def sampleRun2 : List Label :=
+  [.subCall .gen false, .prepare, .begin, .subRet true 1, .abortCall 20, .abortSec 20, .complete 0, .finish,
+   .pop, .cbRead, .subCall .gen true, .prepare, .begin, .subRet true 1, .cbDone, .callCancel .gen 20, .finish,
+   .pop, .cbRead, .cbDone, .peek, .skipArm, .subCall (.direct 7) false, .direct, .subRet false 1, .peek,
+   .stopCall true, .stopMark, .stopCancel, .stopWait, .stopRet, .tick 3, .complete 0]
+
+example : NoSleep sampleRun ∧ Contract Cfg.fixed {} {} sampleRun ∧ (run Cfg.fixed {} sampleRun).isSome = true := by
+  refine ⟨?_, by decide, by decide⟩
+  intro l hl
+  simp only [sampleRun, List.mem_cons, List.not_mem_nil, or_false] at hl
+  rcases hl with h | h | h | h | h | h | h | h | h | h | h | h | h | h | h | h | h | h | h | h <;> subst h <;> trivial
+
+example : Contract Cfg.fixed {} {} sampleRun2 ∧
+    (run Cfg.fixed {} sampleRun2).map (fun s => (s.starts, s.reported, s.skips, s.freed)) = some (3, 2, 1, true) ∧
+    judge (traceX Cfg.fixed {} {} sampleRun2 ++ [.quiet]) = none := by decide
+
+/-- the same execution with the abort's return observed only at the next `nng_aio_result` call -/
+def retAtPeek : RetPolicy := fun _ _ l => match l with | .peek => 1 | _ => 0
+
+example : ContractP Cfg.fixed retAtPeek {} {} sampleRun2 ∧
+    (traceP Cfg.fixed retAtPeek {} {} sampleRun2).count .abortRet = 1 ∧
+    judge (traceP Cfg.fixed retAtPeek {} {} sampleRun2) = none := by decide
+
+/-- the monitor is not vacuous on such traces: it rejects `sampleRun2` with the second callback
+    reporting 0 instead of the abort's code -/
+example : (judge ((traceX Cfg.fixed {} {} sampleRun2).map
+    (fun o => if o == .cbBegin 20 then .cbBegin 0 else o))).isSome = true := by decide
+
+-- every hypothesis is necessary: executions of the repaired model that break exactly one of them
+-- (they keep to the contract up to the offending step) and are rejected by the monitor
+
+/-- NoSleep: the double completion of `sleep_close_double_completion` shows in the trace as a
+    callback without an operation (the execution keeps to the contract) -/
+theorem judge_needs_no_sleep :
+    (run Cfg.fixed {} (sleepCloseWitness ++ [.pop, .cbRead, .pop, .cbRead])).isSome = true ∧
+    Contract Cfg.fixed {} {} (sleepCloseWitness ++ [.pop, .cbRead, .pop, .cbRead]) ∧
+    (judge (traceX Cfg.fixed {} {} (sleepCloseWitness ++ [.pop, .cbRead, .pop, .cbRead]))).isSome = true := by
+  decide
+
+/-- the offending step is number `n` (from 0) of `w`: the execution is one of the model, keeps to the
+    contract before that step, and the monitor rejects its trace -/
+def Breaks (w : List Label) (n : Nat) : Prop :=
+  NoSleep w ∧ (run Cfg.fixed {} w).isSome = true ∧ Contract Cfg.fixed {} {} (w.take n) ∧
+  ¬ Contract Cfg.fixed {} {} (w.take (n + 1)) ∧ (judge (traceX Cfg.fixed {} {} w)).isSome = true
+
+instance (w : List Label) : Decidable (NoSleep w) :=
+  decidable_of_iff (w.all fun l => match l with | .subCall (.slp _) _ => false | _ => true) (by
+    simp only [NoSleep, List.all_eq_true]
+    constructor
+    · intro h l hl
+      have := h l hl
+      cases l <;> try trivial
+      rename_i k f; cases k <;> first | trivial | simp at this
+    · intro h l hl
+      have := h l hl
+      cases l <;> try rfl
+      rename_i k f; cases k <;> first | rfl | exact absurd this (by simp [NoSleepL]))
+
+instance (w : List Label) (n : Nat) : Decidable (Breaks w n) := by unfold Breaks; infer_instance
+
+/-- the provider completes an operation with NNG_ETIMEDOUT of its own (asynchronously) -/
+theorem judge_needs_provider_no_timeout :
+    Breaks [.subCall .gen false, .prepare, .begin, .subRet true 1, .complete ETIMEDOUT, .finish, .pop, .cbRead] 4 := by
+  decide
+
+/-- ... or synchronously -/
+theorem judge_needs_provider_no_timeout_direct :
+    Breaks [.subCall (.direct ETIMEDOUT) false, .direct, .pop, .cbRead] 0 := by decide
+
+/-- an operation is started while the previous start call has not returned: the monitor takes that
+    return for the new operation's (here: for "skip flag set") -/
+theorem judge_needs_ordered_returns :
+    Breaks [.skipArm, .subCall (.direct 0) false, .direct, .subCall (.direct 7) false, .subRet false 1] 3 := by
+  decide
+
+/-- after an operation that used nng_aio_set_expire the next one is started without configuring the
+    timeout again: the aio falls back to the relative timeout, the monitor still expects the absolute one -/
+theorem judge_needs_expire_reconfigured :
+    Breaks [.setTimeout (.ms 3), .setExpire 30, .subCall (.direct 0) false, .direct, .subRet false 0, .pop, .cbRead,
+      .cbDone, .subCall .gen false, .prepare, .begin, .subRet true 1, .tick 4, .expScan, .expTake, .expCall, .finish,
+      .expRelease, .pop, .cbRead] 8 := by decide
+
+/-- nng_aio_result after nng_aio_free -/
+theorem judge_needs_no_peek_after_free :
+    Breaks [.stopCall true, .stopMark, .stopCancel, .stopWait, .stopRet, .peek] 5 := by decide
+
+/-- a start call that returns after nng_aio_free has -/
+theorem judge_needs_returns_before_free :
+    Breaks [.subCall (.direct 0) false, .direct, .pop, .cbRead, .cbDone, .stopCall true, .stopMark, .stopCancel,
+      .stopWait, .stopRet, .subRet false 0] 8 := by decide
+
+/-- (delayed returns) nng_aio_free is called while an `nng_aio_abort` call has not returned, and
+    the return is observed after nng_aio_free's -/
+def retAfterFree : RetPolicy := fun s _ _ => if s.freed && s.stopPc == 0 then 1 else 0
+
+theorem judge_needs_aborts_returned_before_free :
+    let w : List Label := [.abortCall 20, .abortSec 20, .stopCall true, .stopMark, .stopCancel, .stopWait, .stopRet, .tick 1]
+    (run Cfg.fixed {} w).isSome = true ∧ ContractP Cfg.fixed retAfterFree {} {} (w.take 2) ∧
+    ¬ ContractP Cfg.fixed retAfterFree {} {} (w.take 3) ∧ Contract Cfg.fixed {} {} w ∧
+    (judge (traceP Cfg.fixed retAfterFree {} {} w)).isSome = true := by decide
+
+/-- a start refused because of the stop, whose NNG_ESTOPPED callback begins after nng_aio_stop's last
+    look at the task and before its return: the monitor counts it as "running when stop returns" (it
+    accepts the same callback when it begins after the return) -/
+theorem judge_needs_no_callback_in_stop_window :
+    Breaks [.stopCall false, .stopMark, .stopCancel, .stopWait, .subCall .gen false, .prepare, .begin, .pop,
+      .cbRead, .stopRet] 8 := by decide
+
+-- the two corrections of the monitor delivered with this proof: executions of the repaired model
+-- that keep to the contract, satisfy the property, were rejected by the monitor as it was
+-- (`Nng.AioSpecOld.judge`, verbatim copy) and are accepted by the corrected one
+
+/-- `nng_aio_abort(aio, NNG_ETIMEDOUT)` is called before an operation starts and takes effect on it:
+    the callback reports the user's own NNG_ETIMEDOUT.  The old monitor noted "the user passed
+    ETIMEDOUT" only for aborts called after the start ("timeout: NNG_ETIMEDOUT before the configured
+    duration"); the clause "cancel codes" already counted aborts in flight at the start. -/
+def abortTimeoutInFlight : List Label :=
+  [.abortCall ETIMEDOUT, .subCall .gen false, .prepare, .abortSec ETIMEDOUT, .begin, .pop, .cbRead]
+
+theorem old_monitor_false_alarm_abort_timeout_in_flight :
+    NoSleep abortTimeoutInFlight ∧ Contract Cfg.fixed {} {} abortTimeoutInFlight ∧
+    (run Cfg.fixed {} abortTimeoutInFlight).isSome = true ∧
+    (Nng.AioSpecOld.judge (traceX Cfg.fixed {} {} abortTimeoutInFlight)).isSome = true ∧
+    judge (traceX Cfg.fixed {} {} abortTimeoutInFlight) = none := by decide
+
+/-- an operation reports by callback (here NNG_ESTOPPED), the next one completes with the skip flag
+    (no callback) and result 0; `nng_aio_result` then returns 0.  The old monitor compared it with
+    the last CALLBACK's result ("result: result changed from 999 to 0 after the callback"). -/
+def peekAfterSkip : List Label :=
+  [.closeCall, .subCall .gen false, .closeSec, .prepare, .begin, .subRet true 0, .pop, .cbRead, .cbDone,
+   .skipArm, .subCall (.direct 0) false, .direct, .subRet false 1, .peek]
+
+theorem old_monitor_false_alarm_peek_after_skip :
+    NoSleep peekAfterSkip ∧ Contract Cfg.fixed {} {} peekAfterSkip ∧
+    (run Cfg.fixed {} peekAfterSkip).isSome = true ∧
+    (Nng.AioSpecOld.judge (traceX Cfg.fixed {} {} peekAfterSkip)).isSome = true ∧
+    judge (traceX Cfg.fixed {} {} peekAfterSkip) = none := by decide
 
 end Nng.Props.C02
